@@ -57,6 +57,10 @@ def plan_dp(tier, seed, props):
         items += [item("keyed_2", o, 0.6 if q else 1.0), item("keyeddeep", o, 1.0)]
         if not q:
             items += [item("keyed_3", o, 0.5)]
+    if "C05" in props or "C07" in props:
+        for o in (MERGE, SETMERGE):
+            items += [dict(family="obj_2", opts=o, frac=0.2 if q else 1.0, void=True, nf=False),
+                      dict(family="mergedocs", opts=o, frac=0.08 if q else 0.6, void=False, nf=False)]
     if "C05" in props:
         for eps in (4, 8):
             items += [item("scalarr_4_3", O(eps=eps), 0.03 if q else 0.2), item("obj_2", O(eps=eps), 0.05 if q else 0.3),
@@ -81,7 +85,8 @@ def plan_pt(tier, seed, props):
                       item("nestarr_2", o, 0.05 if q else 0.4, False, max=10, mode="whole"),
                       item("keyed_2", o, 0.4 if q else 1.0, False, max=10, mode="whole"),
                       item("deep", o, 0.03 if q else 0.3, False, max=10, mode="whole")]
-        items += [item("keyed_2", KEYS, 1.0, False, max=12, mode="whole"),
+        items += [item("keyednull", KEYS, 1.0, False, max=14, mode="whole"),
+                  item("keyed_2", KEYS, 1.0, False, max=12, mode="whole"),
                   item("keyeddeep", KEYS, 1.0, False, max=12, mode="whole"),
                   item("keyed2k", KEYS2, 0.5 if q else 1.0, False, max=14, mode="whole")]
         if not q:
@@ -172,6 +177,8 @@ def plan_api(tier, seed, props):
     q = tier == "quick"
     n = 3 if q else 10
     return [item("nestarr_2", NONE, max=n * 2), item("scalarr_4_3", NONE, max=n), item("obj_2", MERGE, max=n * 2), item("deepobj", MERGE, max=n),
+            dict(family="mergenull", opts=MERGE, frac=1.0, void=False, nf=False, max=n * 6),
+            dict(family="mergedocs", opts=MERGE, frac=1.0, void=False, nf=False, max=n * 3), dict(family="obj_2", opts=MERGE, frac=1.0, void=False, nf=False, max=n),
             item("obj_2", NONE, max=n), item("scalarr_4_3", SET, max=n), item("nestarr_2", MSET, max=n), item("keyed_2", KEYS, max=n),
             item("obj_2", SETMERGE, max=n), item("deep", NONE, max=n), item("mergedeep", MERGE, max=n)]
 
@@ -268,7 +275,8 @@ CHECKS = {
     "C15": dict(stages=[Stage("api", "TraceApi", plan_api, extra={"histories": "HIST"})], design=["MCApi"],
                 rule="session = one history of read-only calls (every sequence over 10 calls up to the tier's length, from Api.tla) on shared "
                      "live values of one seed (a, b, options), repeated in-process and compared with a reference process; non-trivial = history length >= 2"),
-    "C14": dict(stages=[Stage("proc", "TraceCli", lambda t, s, p: [], bins=True, extra={"frac": "FRAC"})], design=["MCCli"],
+    "C14": dict(stages=[Stage("proc", "TraceCli", lambda t, s, p: [], bins=True, extra={"frac": "FRAC"}),
+                        Stage("proc", "TraceCli", lambda t, s, p: [], bins=True, table="percent", extra={"frac": "FRAC2"})], design=["MCCli"],
                 rule="session = one invocation of the matrix of Cli.tla (binary x reading flags x format x yaml x color x -o x input pair, "
                      "error and translation invocations), its stdin twin and the follow-up jd -p run on its output"),
     "C16": dict(stages=[Stage("ya", "TraceCarrier", plan_ya, bins=True, table="yaml")], design=[], level="exploration",
@@ -368,7 +376,7 @@ def run_check(prop, tier, seed, keep=False, only=None):
             for ch in range(nchunks):
               plan = dict(driver=st.driver, seed=seed, table=table_path(st.table), yaml_every=st.yaml_every,
                         items=st.planfn(tier, seed, props_judged), bins=bins or {},
-                        extra={k: (tier if v == "TIER" else (0.12 if tier == "quick" else 1.0) if v == "FRAC" else (300 if tier == "quick" else 6000) if v == "NCLI" else ("histories_2" if tier == "quick" else "histories_3") if v == "HIST" else v)
+                        extra={k: (tier if v == "TIER" else (0.12 if tier == "quick" else 1.0) if v == "FRAC" else (0.04 if tier == "quick" else 0.3) if v == "FRAC2" else (300 if tier == "quick" else 6000) if v == "NCLI" else ("histories_2" if tier == "quick" else "histories_3") if v == "HIST" else v)
                                for k, v in st.extra.items()})
               if nchunks > 1:
                   plan["extra"]["chunk"] = [ch, nchunks]
